@@ -78,11 +78,17 @@ CannotStart == {<<E("10-aa", IF k = 1 THEN bk ELSE "exec", IF k = 1 THEN "" ELSE
                   E("30-cc", IF k = 3 THEN bk ELSE "exec", IF k = 3 THEN "" ELSE "healthy")>> : k \in 1..3, bk \in {"garbage", "symdir"}}
                \cup {<<E("10-only", "garbage", "")>>, <<E("10-aa", "garbage", ""), E("20-bb", "symdir", "")>>}
 
+\* "stubborn": healthy, ignores every signal that can be ignored, does not leave when its connection is closed;
+\* "linger": closes its connection soon after start-up and stays around; in its scenarios the runtime issues no
+\* request at all before it stops (nothing prunes the closed plugin) - both are killed when NRI stops
+Stays == {<<E("10-aa", "exec", IF k = 1 THEN b ELSE "healthy"), E("20-bb", "exec", IF k = 2 THEN b ELSE "healthy")>> :
+            k \in 1..2, b \in {"stubborn", "linger"}}
+
 Scenarios ==
   CASE Mode = "dirs" -> {[entries |-> d, dropins |-> {}, stale |-> FALSE, syncfails |-> FALSE] : d \in Dirs2 \cup Dirs3 \cup Small}
     [] Mode = "dropins" -> {[entries |-> <<E("20-bb", "exec", "healthy"), E("10-aa", "exec", "healthy")>>, dropins |-> da \cup db,
                              stale |-> FALSE, syncfails |-> FALSE] : da \in DropSets("10-aa"), db \in DropSets("20-bb")}
-    [] Mode = "more" -> {[entries |-> d, dropins |-> {}, stale |-> FALSE, syncfails |-> FALSE] : d \in {ExecBits, Liar} \cup FailSync \cup Hangs \cup CannotStart}
+    [] Mode = "more" -> {[entries |-> d, dropins |-> {}, stale |-> FALSE, syncfails |-> FALSE] : d \in {ExecBits, Liar} \cup FailSync \cup Hangs \cup CannotStart \cup Stays}
                         \* the runtime's own synchronization callback fails: Start fails and everything launched is killed
                         \cup {[entries |-> <<E("10-aa", "exec", "healthy"), E("20-bb", "exec", "healthy"), E("30-cc", "exec", "noregister")>>,
                                dropins |-> {}, stale |-> FALSE, syncfails |-> TRUE]}
